@@ -2769,6 +2769,12 @@ def _transition_to_absent(
 ) -> None:
     """Remove any type of entry."""
     if current_stat is None:
+        # Nothing on disk to remove, but the path still has to leave the index
+        # (e.g. a staged addition whose file was deleted again, on reset --hard).
+        try:
+            del index[path]
+        except KeyError:
+            pass
         return
 
     if stat.S_ISDIR(current_stat.st_mode):
